@@ -196,6 +196,9 @@ type scenario struct {
 	// mustSucceed: the parameters are valid, so the exchange with the honest real server must succeed
 	mustSucceed bool
 	liveFailed  bool
+	// literalHost (free only): the host executes the index list exactly as it arrives on the
+	// wire (swap, swap, …, trim) and proves and signs that, instead of rejecting duplicates
+	literalHost bool
 	// otherIndices (free only): the host answers validly for another index set
 	otherIndices func(alt []uint64) mutation
 }
@@ -205,6 +208,11 @@ type mutation struct {
 	field, kind string
 	apply       func(out []rhpc.Msg)
 }
+
+// foreign: the case runs over a transport whose peer key is NOT the contract's host key (the
+// renter reached the contract host through a relay / an impersonator / a rotated transport
+// identity); selected by the kind prefix.
+func (m *mutation) foreign() bool { return strings.HasPrefix(m.kind, "foreign-peer-key") }
 
 func (e *env) runCase(sc *scenario, m *mutation) {
 	out := rhpc.CloneMsgs(sc.steps, sc.honest)
@@ -237,7 +245,12 @@ func (e *env) runCase(sc *scenario, m *mutation) {
 	}
 	var sent []rhpc.Msg
 	done := make(chan struct{})
-	tr := rhpc.Scripted(e.h.Key.PublicKey(), func(conn net.Conn) {
+	peerKey := e.h.Key.PublicKey()
+	if m != nil && m.foreign() {
+		peerKey = e.otherKey.PublicKey()
+		tags = append(tags, "transport:foreign-peer-key")
+	}
+	tr := rhpc.Scripted(peerKey, func(conn net.Conn) {
 		defer close(done)
 		sent = rhpc.Replay(conn, sc.steps, out, resolve)
 	})
@@ -467,8 +480,10 @@ func Run(r *vh.Run) {
 	}
 	if quick {
 		e.freeSubstitutionSweep(7, 2, 15)
+		e.freeSequenceSweep(5, 3)
 	} else {
 		e.freeSubstitutionSweep(10, 3, 25)
+		e.freeSequenceSweep(6, 4)
 	}
 	r.Extra("scenarios", e.nScenarios)
 	r.Extra("mutation_space", "every (scenario, host message, field, mutation kind) listed in distribution under field:* and mut:*")
